@@ -75,7 +75,7 @@ def evaluate(spec):
 @st.composite
 def variant(draw, nlines, tls_only, allow_sub=True):
     v = {"seed": draw(st.integers(0, 1 << 30)), "shuffle": draw(st.booleans()), "crlf": draw(st.booleans()),
-         "comments": draw(st.sampled_from([0, 0, 1, 3])), "blanks": draw(st.sampled_from([0, 0, 1, 2])),
+         "comments": draw(st.sampled_from([0, 0, 1, 3])), "comment_keys": draw(st.booleans()), "blanks": draw(st.sampled_from([0, 0, 1, 2])),
          "unrelated": draw(st.sampled_from([0, 0, 2])), "dup": draw(st.sampled_from([0, 0, 1, 2, 6, 15])),
          "upper": draw(st.sampled_from(["none", "none", "cr", "sec", "both", "mixed"])),
          "no_final_nl": draw(st.sampled_from([False, False, True]))}       # the last line need not end with a line terminator
@@ -214,7 +214,7 @@ def stages(tier):
 RULE = ("stage block-boundaries: key logs of 4 KiB .. 256 KiB in which a line of the connection lies across a multiple of 4096 / 8192 / 65536 / 131072 "
         "bytes at every kind of position; stage line-orders: for a TLS 1.3 (with and without tickets), TLS 1.2, TLS 1.0 and QUIC connection, every order of its key-log lines with one line "
         "repeated at every position (quick: 120 sampled per connection); other stages: a TLS and/or QUIC scenario is run with its canonical key log file and with a generated delivery variant: line permutation, LF/CRLF, "
-        "comment / blank / unrelated / duplicate lines, last line with or without a line end, upper/lower/mixed-case hex in client random and secret, file only / DSB only (no -s) / "
+        "comment (also commented-out entries for the connection's client random with a stale secret) / blank / unrelated / duplicate lines, last line with or without a line end, upper/lower/mixed-case hex in client random and secret, file only / DSB only (no -s) / "
         "(the pcapng holding the blocks little- or big-endian) "
         "file + DSB / log split over 2-4 DSBs (blocks may be empty) / lines partitioned between file and DSB, DSBs before the interface description block, first after it, or (TLS-only captures) "
         "anywhere; stage dsb-only-subprocess runs `python -m tlexport.main` without -s from three different working directories; oracle: output "
